@@ -483,7 +483,7 @@ func checkC09(c *Check, p *Program) {
 				okT, failT = failT, okT
 			}
 			pb := t.procCall.Block()
-			reach := reachableFrom(okT, func(from, to *ssa.BasicBlock) bool { return to == pb })
+			reach := reachUntil(okT, pb)
 			bad := false
 			for rb := range reach {
 				if rb == pb {
@@ -715,7 +715,7 @@ func checkC09(c *Check, p *Program) {
 				lpc := innermostLoop(b)
 				bad := lpc == nil
 				if lpc != nil && s != lpc.Header {
-					for rb := range reachableFrom(s, func(from, to *ssa.BasicBlock) bool { return to == lpc.Header }) {
+					for rb := range reachUntil(s, lpc.Header) {
 						if rb == lpc.Header {
 							continue
 						}
@@ -792,7 +792,7 @@ func checkHandlerOutcome(c *Check, p *Program, rule string, process *ssa.Functio
 			}
 			found = true
 			bad := false
-			for rb := range reachableFrom(s, func(from, to *ssa.BasicBlock) bool { return to == sel.Block() }) {
+			for rb := range reachUntil(s, sel.Block()) {
 				if rb == sel.Block() {
 					continue
 				}
